@@ -23,6 +23,13 @@ pub fn through_carriers(ctx: &mut Ctx, h: &Item, nstyles: usize, strict: bool, n
         }
         // A: standalone
         let out = decode_oracle(ctx, Ty::Header, &bytes, "Header::from_slice", strict);
+        if s == 0 {
+            // a tag around the map is not a header map
+            for w in [55799u64, 24] {
+                let wb = rcbor::det(&Item::Tag(w, Box::new(h.clone())));
+                decode_oracle(ctx, Ty::Header, &wb, "Header::from_slice(tag-wrapped)", false);
+            }
+        }
         if let Outcome::Accepted(..) = out {
             ctx.sample(|| J::obj(vec![("carrier", J::s("Header::from_slice")), ("hex", J::Str(hex(&bytes))), ("outcome", J::s("accepted, fields equal the model's"))]));
         }
@@ -73,6 +80,7 @@ impl Check for C08 {
             Phase { name: "random maps over the label alphabet", cases: scale(if q { 75000 } else { 400000 }, b), exhaustive: false },
             Phase { name: "all entry orders of small headers", cases: scale(if q { 1500 } else { 6000 }, b), exhaustive: false },
             Phase { name: "all 128 subsets of the typed fields", cases: 128, exhaustive: true },
+            Phase { name: "every ordered pair of the seven typed entries (both orders, incl. IV with Partial IV) and every typed entry twice", cases: 49, exhaustive: true },
         ]
     }
     fn run_case(&self, ctx: &mut Ctx, phase: usize, idx: u64) {
@@ -150,6 +158,26 @@ impl Check for C08 {
                             decode_oracle(ctx, Ty::Header, &bytes, "Header::from_slice(permuted)", false);
                         });
                     }
+                }
+            }
+            6 => {
+                let vals: [(i64, Item); 7] = [
+                    (1, Item::int(-7)),
+                    (2, Item::Array(vec![Item::int(4)])),
+                    (3, Item::int(60)),
+                    (4, Item::bytes(&[1, 2])),
+                    (5, Item::bytes(&[3])),
+                    (6, Item::bytes(&[4])),
+                    (7, Item::Array(vec![Item::Bytes(vec![]), Item::Map(vec![]), Item::bytes(&[9])])),
+                ];
+                let (a, b) = ((idx / 7) as usize, (idx % 7) as usize);
+                for extra_first in [false, true] {
+                    let mut m = vec![(Item::int(vals[a].0), vals[a].1.clone()), (Item::int(vals[b].0), vals[b].1.clone())];
+                    if extra_first {
+                        m.insert(0, (Item::int(10), Item::Null));
+                        m.insert(2, (Item::text("x"), Item::int(1)));
+                    }
+                    through_carriers(ctx, &Item::Map(m), 1, a == b, true);
                 }
             }
             _ => {
